@@ -26,15 +26,39 @@ def run(chk):
         wide = r.choice(["", "", "", "wide", "ascii wide"])
         g = regen.ReGen(r.fork(), nocase, dotall, allow_anchor=not wide)
         ast = g.with_literal(r.range(1, 3))
+        fullword = wide != "ascii wide" and r.chance(1, 4)
+        if fullword and r.chance(1, 3):
+            # no literal at all: the string has no atom, every position is a candidate and the whole expression is forward code
+            def smallcls():
+                lo = r.choice(b"acx04")
+                return r.choice([("class", False, [(lo, lo + r.range(1, 3))]), ("esc", "d"), ("class", False, [(0x61, 0x63), (0x30, 0x32)])])
+            ast = smallcls()
+            for _ in range(r.range(1, 2)):
+                ast = ("cat", ast, smallcls())
+            if r.chance(1, 2):
+                n_ = r.range(2, 3)
+                ast = ("rep", smallcls(), n_, n_, True)
         txt = regen.re_print(ast)
         sexp = regen.re_sexp(ast, nocase, dotall)
         if wide == "wide":
             sexp = regen.widen_sexp(sexp)
         elif wide:
             sexp = "( alt %s %s )" % (sexp, regen.widen_sexp(sexp))
-        decl = "/%s/%s%s%s" % (txt.replace("/", "\\x2f"), "s" if dotall else "", " nocase" if nocase else "", " " + wide if wide else "")
+        decl = "/%s/%s%s%s%s" % (txt.replace("/", "\\x2f"), "s" if dotall else "", " nocase" if nocase else "", " " + wide if wide else "", " fullword" if fullword else "")
         bufs = [recheck.make_buffer(r, [sexp], r.choice([3, 8, 20, 40, 90]), regen.ALPHA + b"\n\0\xff") for _ in range(4)]
-        meta_ = {"shape": shape(ast) + ("/" + wide.replace(" ", "+") if wide else ""), "nocase": nocase, "dotall": dotall}
+        meta_ = {"shape": shape(ast) + ("/" + wide.replace(" ", "+") if wide else "") + ("/fullword" if fullword else ""), "nocase": nocase, "dotall": dotall}
+        if fullword:
+            # the match must be delimited as a word (Spec/TextSpec.v fullword_ascii / fullword_wide); members planted with word characters,
+            # delimiters and the buffer's ends as neighbours, in the narrow or the 16-bit form
+            meta_["cmd"] = "refw w" if wide == "wide" else "refw a"
+            for _ in range(3):
+                m_ = regen.sample_match(r, sexp)
+                if not m_:
+                    continue
+                def nb():
+                    c = r.choice(b"x7 .-_Z")
+                    return bytes([c, 0]) if wide == "wide" else bytes([c])
+                bufs.append(r.choice([b"", nb(), nb() + nb()]) + m_ + r.choice([b"", nb(), nb() + nb(), nb()[:1]]) + m_ + r.choice([b"", nb()]))
         if regen.has_looped_nullable_rep(ast):
             meta_["known_missed_key"] = "counted-repeat-of-nullable-group"
         items.append((decl, sexp, bufs, meta_))
@@ -135,4 +159,4 @@ def run(chk):
                   "non-empty matches, lengths must be admissible; plus the `matches` operator on string externals; distinct = (shape, #matches class, match at 0)")
     chk.sample({"string": items[0][0], "sexp": items[0][1], "buffer_hex": hx(items[0][2][0])})
     chk.sample({"matches_rule": meta[0][0], "subject_hex": hx(meta[0][1])})
-    chk.assumptions += ["fullword regex strings are not generated", "generated matches are shorter than YR_RE_SCAN_LIMIT (longer ones: known finding)"]
+    chk.assumptions += ["ascii wide fullword regexps are not generated; where only some of the admissible lengths at an offset are delimited as a word the offset is neither demanded nor forbidden", "generated matches are shorter than YR_RE_SCAN_LIMIT (longer ones: known finding)"]
